@@ -228,7 +228,7 @@ def main(argv=None):
         btasks = []
         bnames = set()
         for nm, K in sorted(ct.REGISTRY.items()):
-            if K.layer == "backend" and "C13" in getattr(K, "vprops", ()) and nm not in have:
+            if K.layer == "backend" and ("C13" in getattr(K, "vprops", ()) or prop in getattr(K, "interface_for", ())) and nm not in have:
                 bnames.add(nm)
                 for cfg in K.configs(tier):
                     btasks.append((nm, cfg, "VRFK", tier))
@@ -278,7 +278,9 @@ def main(argv=None):
                 obligations.append((r["function"], r["cfg_raw"], ob))
             elif r.get("via_callee") and not ob.get("canary") and (
                     ob["name"].split(".")[0] in PR.FACET_OF_LETTER_SET(prop)
-                    or (r.get("via_backend_interface") and "C13" in PR.clause_props(ct.REGISTRY[r["function"]], ob["name"], r["cfg_raw"]))):
+                    or (r.get("via_backend_interface") and ("C13" in PR.clause_props(ct.REGISTRY[r["function"]], ob["name"], r["cfg_raw"])
+                                                            or (prop in getattr(ct.REGISTRY[r["function"]], "interface_for", ())
+                                                                and ob["name"][:2] in ("V.", "R.", "F."))))):
                 ob["via_callee"] = True
                 obligations.append((r["function"], r["cfg_raw"], ob))
     # cross-configuration trace equality (C06): same public parameters => same event list
